@@ -29,6 +29,14 @@ var bigPtrT types.Type
 var bigConsts = map[int64]*Term{}
 var constSlices = map[int64]*Term{}
 
+// constMaps: content of never-written package-level maps with integer keys and values, by (negative) object id.
+type constMap struct {
+	has, val *Term
+	n        int
+}
+
+var constMaps = map[int64]*constMap{}
+
 func bigval(st *State, ref *Term) *Term {
 	if ref.IsConst() && ref.Val.Sign() < 0 {
 		if v, ok := bigConsts[ref.Val.Int64()]; ok {
@@ -811,6 +819,32 @@ func (c *Ctx) evalInitExpr(e ast.Expr, pkg *packages.Package, t types.Type, name
 				v.Fs[fi] = fv
 			}
 			return v
+		case *types.Map:
+			if kindOf(u.Key()) != KInt || kindOf(u.Elem()) != KInt {
+				return nil
+			}
+			cm := &constMap{has: ConstArr(SArr(SInt, SBool), TFalse), val: ConstArr(SArr(SInt, SInt), Num(0))}
+			seen := map[string]bool{}
+			for _, el := range x.Elts {
+				kv, ok := el.(*ast.KeyValueExpr)
+				if !ok {
+					return nil
+				}
+				kx := c.evalInitExpr(kv.Key, pkg, u.Key(), name, depth+1)
+				vx := c.evalInitExpr(kv.Value, pkg, u.Elem(), name, depth+1)
+				if kx == nil || vx == nil || !kx.X.IsConst() || !vx.X.IsConst() {
+					return nil
+				}
+				if !seen[kx.X.Val.String()] {
+					seen[kx.X.Val.String()] = true
+					cm.n++
+				}
+				cm.has = Store(cm.has, kx.X, TTrue)
+				cm.val = Store(cm.val, kx.X, vx.X)
+			}
+			ref := Num(-int64(1000 + c.typeTag("global:"+name)))
+			constMaps[ref.Val.Int64()] = cm
+			return &Val{K: KMap, T: t, X: ref}
 		case *types.Array, *types.Slice:
 			var et types.Type
 			if a, ok := u.(*types.Array); ok {
